@@ -34,10 +34,31 @@ var reviewedRisks = map[string]string{
 	"getUsernameIfKeymasterSigned|VerifiedChains[(φrangeindex + 1)][1]":                                                              "guarded by len(chain) < 2 => continue (range element re-indexed)",
 	"parseRefreshRoleCertGenParams|r.TLS.VerifiedChains[0][0]":                                                                       "a verified chain always contains the leaf certificate (crypto/tls contract)",
 	"sealEncodeData|nonce[:iface:(crypto/cipher.AEAD).NonceSize()]":                                                                  "nonce is the server-generated 43-character token id (genRandomString), longer than the 12-byte GCM nonce",
-	"decodeOpenData|nonce[:iface:(crypto/cipher.AEAD).NonceSize()]":                                                                  "nonce is the jti of a code whose signature was verified; the server only signs 43-character ids",
+	"decodeOpenData|nonce[:iface:(crypto/cipher.AEAD).NonceSize()]":                                                                  "nonce is the jti of a code this server minted (43 characters): reached only after the code's protected key decrypted, which fails for every other signed token",
 	"roleCommonName|roleArn.Resource[5:]":                                                                                            "callers verified HasPrefix(Resource, \"role/\") (makeCertificateTemplate) before calling",
 	"getSignerX509CAForPublic|state.caCertDer[(builtin:len(state.caCertDer) - 1)]":                                                   "caCertDer is non-empty once unsealed (loader appends before storing the signer; C09)",
 	"idpOpenIDCUserinfoHandler|(*cmd/keymasterd.RuntimeState).getUserAttributes(state, t104.Username, slicelit[:])#0[\"mail\"]#0[0]": "directory attribute lists returned by the LDAP library are non-empty when present",
+}
+
+// takesDecodable: the helper receives bytes, text, a token or a certificate - something it may index or slice
+func takesDecodable(g *ssa.Function) bool {
+	for _, p := range g.Params {
+		t := p.Type().String()
+		if strings.Contains(t, "[]byte") || t == "string" || strings.Contains(t, "x509.Certificate") || strings.Contains(t, "jwt.") || strings.Contains(t, "CodeToken") || strings.Contains(t, "JWT") {
+			return true
+		}
+	}
+	return false
+}
+
+// reviewedRisksNeed: the dominating fact some reviewed entries depend on.
+var reviewedRisksNeed = map[string]struct {
+	what, callee string
+	idx          int
+}{
+	// a signed token that is not an authorization code has no jti and no protected key: the keyset decryption
+	// fails first, so the nonce is sliced only for codes this server minted
+	"decodeOpenData|nonce[:iface:(crypto/cipher.AEAD).NonceSize()]": {"protected key of the code decrypted (err == nil)", RS + "deserializeKeysetIntoPlaintextKey", 1},
 }
 
 func checkC10(c *km.Ctx) {
@@ -551,13 +572,53 @@ func checkDecoderPanics(c *km.Ctx, s *km.Sem) {
 			scope[fn] = true
 		}
 	}
+	isRoute := map[*ssa.Function]bool{}
+	for _, rt := range c.Routes {
+		if rt.Handler != nil {
+			isRoute[rt.Handler] = true
+		}
+	}
+	listed := map[*ssa.Function]bool{}
 	for _, n := range decoderScope {
-		if fn := c.MustFunc("R-C10-4", "cmd/keymasterd", n); fn != nil {
-			scope[fn] = true
-			for _, a := range fn.AnonFuncs {
-				scope[a] = true
+		if fn := c.P.Func("cmd/keymasterd", n); fn != nil {
+			listed[fn] = true
+		}
+	}
+	for _, n := range decoderScope {
+		fn := c.P.Func("cmd/keymasterd", n)
+		if fn == nil {
+			// a listed decoder that was renamed or merged away: its code is scanned through whoever calls it now
+			continue
+		}
+		scope[fn] = true
+		for _, a := range fn.AnonFuncs {
+			scope[a] = true
+		}
+		// helpers the decoders were split into (same package, not route handlers, not listed themselves)
+		for _, ci := range km.CallsIn(fn) {
+			g := km.StaticCallee(ci.Common())
+			if g == nil || g.Blocks == nil || g.Pkg == nil || g.Pkg.Pkg.Path() != KMD || isRoute[g] || listed[g] || scope[g] {
+				continue
+			}
+			if !takesDecodable(g) {
+				continue
+			}
+			scope[g] = true
+			for _, c2 := range km.CallsIn(g) {
+				if g2 := km.StaticCallee(c2.Common()); g2 != nil && g2.Blocks != nil && g2.Pkg != nil && g2.Pkg.Pkg.Path() == KMD && !isRoute[g2] && !listed[g2] && takesDecodable(g2) {
+					scope[g2] = true
+				}
 			}
 		}
+	}
+	nListed := 0
+	for fn := range listed {
+		if scope[fn] {
+			nListed++
+		}
+	}
+	if nListed < len(decoderScope)/2 {
+		r.AnchorLost("R-C10-4", sprintf("decoder entry points (found %d of %d)", nListed, len(decoderScope)))
 	}
 	// route prefix justification
 	patternOf := map[*ssa.Function]string{}
@@ -664,6 +725,14 @@ func checkDecoderPanics(c *km.Ctx, s *km.Sem) {
 			if !guarded {
 				if reason, ok := reviewedRisks[key]; ok {
 					guarded, how = true, "reviewed: "+reason
+					// some table entries hold only under a fact their reason names; that fact is then required at the
+					// site, or at every call of the enclosing function
+					if need, has := reviewedRisksNeed[key]; has {
+						pr := primErrNil(need.what, need.callee, need.idx)
+						if ok2, _ := s.HoldsOnAllPaths(rs.in, allPrims(s, pr), map[*ssa.Function]bool{}, 3); !ok2 {
+							guarded, how = false, "reviewed entry needs \""+need.what+"\" on every path to the site, which no longer holds"
+						}
+					}
 				}
 			}
 			found := how
